@@ -936,6 +936,13 @@ namespace vsim
 {
 void check_tallies(History const& h, Problem const& prob, RunResult& out)
 {
+    check_tallies(std::vector<History const*>{&h}, prob, out, "C17");
+}
+
+void check_tallies(std::vector<History const*> const& hs, Problem const& prob, RunResult& out,
+                   std::string const& property)
+{
+    std::size_t num_slots = hs.empty() ? 0 : hs[0]->num_slots;
     constexpr int ST_ALIVE_ = 2, ST_KILLED_ = 4;
     auto bits_ = [](double d) {
         std::uint64_t u;
@@ -945,20 +952,31 @@ void check_tallies(History const& h, Problem const& prob, RunResult& out)
     if (prob.calo)
     {
         std::vector<double> expected(prob.calo_volumes.size(), 0.0);
-        for (auto const& f : h.frames)
+        for (History const* hp : hs)
         {
-            auto const& pre = f.obs[(int)Point::pre];
-            auto const& post = f.obs[(int)Point::post];
-            if (pre.empty() || post.empty())
-                continue;
-            for (std::size_t s = 0; s < post.size(); ++s)
+            // each stream accumulates its own tally in step/slot order; the
+            // total adds the per-stream tallies in stream order
+            std::vector<double> part(prob.calo_volumes.size(), 0.0);
+            bool any = false;
+            for (auto const& f : hp->frames)
             {
-                if (!post[s].active() || post[s].deposit == 0)
+                auto const& pre = f.obs[(int)Point::pre];
+                auto const& post = f.obs[(int)Point::post];
+                if (pre.empty() || post.empty())
                     continue;
-                for (std::size_t d = 0; d < prob.calo_volumes.size(); ++d)
-                    if (pre[s].volume == prob.calo_volumes[d])
-                        expected[d] += post[s].deposit;
+                any = true;
+                for (std::size_t s = 0; s < post.size(); ++s)
+                {
+                    if (!post[s].active() || post[s].deposit == 0)
+                        continue;
+                    for (std::size_t d = 0; d < prob.calo_volumes.size(); ++d)
+                        if (pre[s].volume == prob.calo_volumes[d])
+                            part[d] += post[s].deposit;
+                }
             }
+            if (any)
+                for (std::size_t d = 0; d < part.size(); ++d)
+                    expected[d] += part[d];
         }
         auto got = prob.calo->calc_total_energy_deposition();
         out.count("calo_detectors_compared", expected.size());
@@ -971,7 +989,7 @@ void check_tallies(History const& h, Problem const& prob, RunResult& out)
                 os << "calorimeter tally of detector " << d << " (volume "
                    << prob.calo_volumes[d] << ") is " << (d < got.size() ? got[d] : -1.0)
                    << " but the steps that happened deposited " << expected[d];
-                out.violate("C17", "calo-tally-mismatch", "calo-tally-mismatch", os.str());
+                out.violate(property, "calo-tally-mismatch", "calo-tally-mismatch", os.str());
             }
         }
     }
@@ -979,17 +997,18 @@ void check_tallies(History const& h, Problem const& prob, RunResult& out)
     {
         std::map<std::pair<std::uint32_t, std::uint32_t>, std::uint64_t> expected;
         std::uint64_t total = 0;
-        for (auto const& f : h.frames)
-        {
-            for (auto const& s : f.obs[(int)Point::post])
+        for (History const* hp : hs)
+            for (auto const& f : hp->frames)
             {
-                if (s.status == ST_ALIVE_ || s.status == ST_KILLED_)
+                for (auto const& s : f.obs[(int)Point::post])
                 {
-                    ++expected[{s.particle, s.post_action}];
-                    ++total;
+                    if (s.status == ST_ALIVE_ || s.status == ST_KILLED_)
+                    {
+                        ++expected[{s.particle, s.post_action}];
+                        ++total;
+                    }
                 }
             }
-        }
         auto got = prob.action_diag->calc_actions();
         std::uint64_t got_total = 0;
         for (std::size_t p = 0; p < got.size(); ++p)
@@ -1001,18 +1020,18 @@ void check_tallies(History const& h, Problem const& prob, RunResult& out)
                 if (got[p][a] != e)
                 {
                     std::string lab = a < prob.action_labels.size() ? prob.action_labels[a] : "?";
-                    out.violate("C17",
+                    out.violate(property,
                                 "action-diagnostic-mismatch",
                                 "action-diagnostic-mismatch",
                                 "action diagnostic counts " + std::to_string(got[p][a])
                                     + " steps for particle " + std::to_string(p) + " action '"
                                     + lab + "' but " + std::to_string(e) + " happened (slots="
-                                    + std::to_string(h.num_slots) + ")");
+                                    + std::to_string(num_slots) + ")");
                 }
             }
         out.count("action_diag_steps_compared", total);
         if (got.empty() && total > 0)
-            out.violate("C17",
+            out.violate(property,
                         "action-diagnostic-mismatch",
                         "action-diagnostic-mismatch",
                         "action diagnostic has no data although " + std::to_string(total)
@@ -1023,17 +1042,18 @@ void check_tallies(History const& h, Problem const& prob, RunResult& out)
         auto got = prob.step_diag->calc_steps();
         std::size_t nb = got.empty() ? 0 : got[0].size();
         std::map<std::pair<std::uint32_t, std::uint32_t>, std::uint64_t> expected;
-        for (auto const& f : h.frames)
-            for (auto const& s : f.obs[(int)Point::post])
-                if (s.status == ST_KILLED_ && nb > 0)
-                    ++expected[{s.particle, std::min<std::uint32_t>(s.num_steps, nb - 1)}];
+        for (History const* hp : hs)
+            for (auto const& f : hp->frames)
+                for (auto const& s : f.obs[(int)Point::post])
+                    if (s.status == ST_KILLED_ && nb > 0)
+                        ++expected[{s.particle, std::min<std::uint32_t>(s.num_steps, nb - 1)}];
         for (std::size_t p = 0; p < got.size(); ++p)
             for (std::size_t b = 0; b < got[p].size(); ++b)
             {
                 auto it = expected.find({(std::uint32_t)p, (std::uint32_t)b});
                 std::uint64_t e = it == expected.end() ? 0 : it->second;
                 if (got[p][b] != e)
-                    out.violate("C17",
+                    out.violate(property,
                                 "step-diagnostic-mismatch",
                                 "step-diagnostic-mismatch",
                                 "step diagnostic counts " + std::to_string(got[p][b])
